@@ -384,6 +384,9 @@ def getContextData (env : Env) (id : Nat) (ctx : Ctx) (kw : List (Str × Val)) :
       | .side => pure (.str [])          -- must leave no trace in this render
     getContextData env id ctx kw rest (setL out v acc)
 
+/-- the name a slot tag resolves to: a string as it is, anything else through `str()` -/
+def slotNameOf (v : Val) : Str := match v with | .str s => s | v => pyStr v
+
 def isDynName (n : Str) : Bool := n = "dynamic".toList
 def isKey : Str := "is".toList
 
@@ -625,7 +628,7 @@ mutual
       let cc ← match alGet cid (← get).ctxCache with
         | some cc => pure cc
         | none => throw (.keyError "component_context_cache")
-      let slotName := match nameV with | .str s => s | v => pyStr v
+      let slotName := slotNameOf nameV
       let fills := cc.fills
       let (fillName, recorded) ← (match slotChecks isDefault cc.isDyn cc.defaultSlot slotName fills with
         | .ok r => do
